@@ -7,51 +7,23 @@ restriction for a restricted denom in front of the quarantine restriction); the 
 quantify over ALL states satisfying the store invariant `StoreInv` (which every reachable state
 does: `store_invariant`) and ALL operation lists `ops : List Op`
 (opt-in/out, auto-response updates, MsgSend, MsgMultiSend, multi-input InputOutputCoins,
-accept/decline naming any senders with or without the permanent flag, AddQuarantinedCoins
-for an arbitrary sender set).  A rejected operation leaves the state unchanged by
+the bypassed SendCoins of the exchange module, accept/decline naming any senders with or
+without the permanent flag, AddQuarantinedCoins for an arbitrary sender set).  A rejected operation leaves the state unchanged by
 construction of `step` (the harness checks that on the implementation).
 
 Two hypotheses appear where they are needed and nowhere else:
 * `holderNeverSigns`: no operation is signed by the funds holder (a module account without
   a key).  Without it the holder could simply send the quarantined coins away.
 * `holderNotNamed` (only for the equality): nobody sends coins to the holder directly.
+
+Section 7 goes beyond the anchored files: genesis export followed by import.  There the clause
+"never lost" is FALSE of the code; `regenesis_can_lose_funds` is the witness (replayed on the
+implementation, known_findings.json) and `regenesis_preserves_partial` is what does hold.
 -/
-import PvProofs.Lemmas.QuarRelease
+import PvProofs.Lemmas.QuarRun
 
 namespace PvProofs.C07
 open PvModel PvModel.Quar PvProofs.QuarL
-
-/-! ### plumbing: `step` / `run` -/
-
-theorem step_eq (s : State) (op : Op) :
-    (∃ s' rel, exec s op = .ok (s', rel) ∧ step s op = s') ∨ ((∃ e, exec s op = .error e) ∧ step s op = s) := by
-  unfold step
-  cases h : exec s op with
-  | error e => exact Or.inr ⟨⟨e, rfl⟩, rfl⟩
-  | ok p => exact Or.inl ⟨p.1, p.2, rfl, rfl⟩
-
-/-- A generic induction principle over operation lists: a relation between the start state
-and the current state that is reflexive, transitive and established by every successful
-operation on a state satisfying the store invariant holds for the whole run. -/
-theorem run_induction (R : State → State → Prop) (hrefl : ∀ s, R s s)
-    (htrans : ∀ a b c, R a b → R b c → R a c)
-    (P : State → Op → Prop)
-    (hstep : ∀ (s s' : State) (op : Op) (rel : Coins), StoreInv s → P s op → exec s op = .ok (s', rel) → R s s' ∧ StoreInv s')
-    (hP : ∀ (s s' : State) (op op' : Op), R s s' → P s op' → P s' op') :
-    ∀ (ops : List Op) (s : State), StoreInv s → (∀ op ∈ ops, P s op) → R s (run s ops) ∧ StoreInv (run s ops) := by
-  intro ops
-  induction ops with
-  | nil => intro s inv _; exact ⟨hrefl s, inv⟩
-  | cons op rest ih =>
-    intro s inv hall
-    show R s (run (step s op) rest) ∧ StoreInv (run (step s op) rest)
-    rcases step_eq s op with ⟨s', rel, he, hs⟩ | ⟨_, hs⟩
-    · rw [hs]
-      obtain ⟨hR, inv'⟩ := hstep s s' op rel inv (hall op (List.mem_cons_self ..)) he
-      have := ih s' inv' (fun o ho => hP s s' op o hR (hall o (List.mem_cons_of_mem _ ho)))
-      exact ⟨htrans _ _ _ hR this.1, this.2⟩
-    · rw [hs]
-      exact ih s inv (fun o ho => hall o (List.mem_cons_of_mem _ ho))
 
 /-! ### 0. the store invariant -/
 
@@ -60,7 +32,7 @@ under the key recomputed from their own senders, keys are unique, no stored reco
 accepted, and every multi-sender record is listed in the suffix index of each of its senders. -/
 theorem store_invariant (s : State) (ops : List Op) (inv : StoreInv s) : StoreInv (run s ops) :=
   (run_induction (fun _ _ => True) (fun _ => trivial) (fun _ _ _ _ _ => trivial) (fun _ _ => True)
-    (fun _ _ _ _ i _ he => ⟨trivial, (exec_ok i he).inv⟩) (fun _ _ _ _ _ _ => trivial) ops s inv
+    (fun _ _ _ _ i _ he => ⟨trivial, (exec_ok i he).inv⟩) (fun _ _ _ _ _ => trivial) ops s inv
     (fun _ _ => trivial)).2
 
 /-- a fresh chain (nothing quarantined) satisfies the store invariant -/
@@ -71,7 +43,7 @@ theorem init_inv (h : Addr) (rd : List Denom) (xf : List Addr) (b : Ledger) : St
 /-- the holder address never changes -/
 theorem holder_constant (s : State) (ops : List Op) (inv : StoreInv s) : (run s ops).holder = s.holder :=
   (run_induction (fun a b => b.holder = a.holder) (fun _ => rfl) (fun _ _ _ h1 h2 => h2.trans h1) (fun _ _ => True)
-    (fun _ _ _ _ i _ he => ⟨(exec_ok i he).holder, (exec_ok i he).inv⟩) (fun _ _ _ _ _ _ => trivial) ops s inv
+    (fun _ _ _ _ i _ he => ⟨(exec_ok i he).holder, (exec_ok i he).inv⟩) (fun _ _ _ _ _ => trivial) ops s inv
     (fun _ _ => trivial)).1
 
 /-! ### 1. the holder covers all records -/
@@ -83,10 +55,10 @@ theorem holder_slack_never_decreases (s : State) (ops : List Op) (inv : StoreInv
     ∀ d, slack s d ≤ slack (run s ops) d := by
   have := (run_induction (fun a b => b.holder = a.holder ∧ ∀ d, slack a d ≤ slack b d)
     (fun _ => ⟨rfl, fun _ => Int.le_refl _⟩)
-    (fun a b c h1 h2 => ⟨h2.1.trans h1.1, fun d => Int.le_trans (h1.2 d) (h2.2 d)⟩)
+    (fun _ _ _ h1 h2 => ⟨h2.1.trans h1.1, fun d => Int.le_trans (h1.2 d) (h2.2 d)⟩)
     (fun s op => op.holderNeverSigns s.holder = true)
-    (fun s s' op rel i hp he => ⟨⟨(exec_ok i he).holder, (exec_ok i he).slack_ge hp⟩, (exec_ok i he).inv⟩)
-    (fun s s' op op' hR hp => by rw [hR.1]; exact hp) ops s inv hsign).1
+    (fun _ _ _ _ i hp he => ⟨⟨(exec_ok i he).holder, (exec_ok i he).slack_ge hp⟩, (exec_ok i he).inv⟩)
+    (fun _ _ _ hR hp => by rw [hR.1]; exact hp) ops s inv hsign).1
   exact this.2
 
 /-- **Holder slack is exact.** If in addition nobody names the holder as a recipient, the
@@ -96,10 +68,10 @@ theorem holder_slack_exact (s : State) (ops : List Op) (inv : StoreInv s)
     ∀ d, slack (run s ops) d = slack s d := by
   have := (run_induction (fun a b => b.holder = a.holder ∧ ∀ d, slack b d = slack a d)
     (fun _ => ⟨rfl, fun _ => rfl⟩)
-    (fun a b c h1 h2 => ⟨h2.1.trans h1.1, fun d => (h2.2 d).trans (h1.2 d)⟩)
+    (fun _ _ _ h1 h2 => ⟨h2.1.trans h1.1, fun d => (h2.2 d).trans (h1.2 d)⟩)
     (fun s op => op.holderNotNamed s.holder = true)
-    (fun s s' op rel i hp he => ⟨⟨(exec_ok i he).holder, (exec_ok i he).slack_eq hp⟩, (exec_ok i he).inv⟩)
-    (fun s s' op op' hR hp => by rw [hR.1]; exact hp) ops s inv hname).1
+    (fun _ _ _ _ i hp he => ⟨⟨(exec_ok i he).holder, (exec_ok i he).slack_eq hp⟩, (exec_ok i he).inv⟩)
+    (fun _ _ _ hR hp => by rw [hR.1]; exact hp) ops s inv hname).1
   exact this.2
 
 /-- **The invariant of the property.** The holder's balance covers the total of all quarantine
@@ -149,8 +121,8 @@ theorem ghost_ledger (s : State) (ops : List Op) (inv : StoreInv s) (h0 : GhostL
   have := (run_induction
     (fun a b => ∀ d, Coins.amountOf b.qin d - Coins.amountOf b.qout d - outstanding b d
         = Coins.amountOf a.qin d - Coins.amountOf a.qout d - outstanding a d)
-    (fun _ _ => rfl) (fun a b c h1 h2 d => (h2 d).trans (h1 d)) (fun _ _ => True)
-    (fun s s' op rel i _ he => ⟨(exec_ok i he).ghost, (exec_ok i he).inv⟩) (fun _ _ _ _ _ _ => trivial)
+    (fun _ _ => rfl) (fun _ _ _ h1 h2 d => (h2 d).trans (h1 d)) (fun _ _ => True)
+    (fun _ _ _ _ i _ he => ⟨(exec_ok i he).ghost, (exec_ok i he).inv⟩) (fun _ _ _ _ _ => trivial)
     ops s inv (fun _ _ => trivial)).1
   intro d
   have h1 := this d
@@ -161,8 +133,8 @@ theorem ghost_ledger (s : State) (ops : List Op) (inv : StoreInv s) (h0 : GhostL
 theorem supply_conserved (s : State) (ops : List Op) (inv : StoreInv s) (d : Denom) :
     Ledger.supply (run s ops).bank d = Ledger.supply s.bank d :=
   (run_induction (fun a b => ∀ d, Ledger.supply b.bank d = Ledger.supply a.bank d)
-    (fun _ _ => rfl) (fun a b c h1 h2 d => (h2 d).trans (h1 d)) (fun _ _ => True)
-    (fun s s' op rel i _ he => ⟨(exec_ok i he).supply, (exec_ok i he).inv⟩) (fun _ _ _ _ _ _ => trivial)
+    (fun _ _ => rfl) (fun _ _ _ h1 h2 d => (h2 d).trans (h1 d)) (fun _ _ => True)
+    (fun _ _ _ _ i _ he => ⟨(exec_ok i he).supply, (exec_ok i he).inv⟩) (fun _ _ _ _ _ => trivial)
     ops s inv (fun _ _ => trivial)).1 d
 
 /-! ### 3. who gets the coins of a send -/
@@ -310,25 +282,6 @@ theorem settings_and_decline_move_nothing {s s' : State} {op : Op} {rel : Coins}
 
 /-! ### 5. accept: paid exactly once, in full, when the last unaccepted sender is accepted -/
 
-/-- the snapshot-level facts of a successful accept -/
-theorem accept_facts {s s' : State} {to : Addr} {froms : List Addr} {perm : Bool} {rel : Coins} (inv : StoreInv s)
-    (h : exec s (.accept to froms perm) = .ok (s', rel)) :
-    ∃ s1, Accepted s s1 to froms (getQuarantineRecords s to froms) [] rel ∧ OnlySettings s1 s' := by
-  simp only [exec, msgAccept] at h
-  cases hf : froms.isEmpty
-  · simp only [hf, Bool.false_eq_true, if_false] at h
-    cases ha : acceptQuarantinedFunds s to froms with
-    | error e => simp [ha] at h
-    | ok p =>
-      obtain ⟨s1, rel1⟩ := p
-      simp only [ha, Except.ok.injEq, Prod.mk.injEq] at h
-      obtain ⟨rfl, rfl⟩ := h
-      refine ⟨s1, acceptLoop_ok to froms _ s s1 [] rel1 inv (getQuarantineRecords_snapshot inv to froms) ha, ?_⟩
-      split
-      · exact setAutoResponses_only to _ s1
-      · exact OnlySettings.refl s1
-  · simp [hf] at h
-
 /-- **Released in full, exactly the completed records.** A successful `accept to froms` pays
 `to`, out of the holder, exactly the coins of those records of `to` whose every still
 unaccepted sender is named in `froms` — that amount is also what the message reports as
@@ -469,6 +422,56 @@ theorem index_complete_always (s0 : State) (ops : List Op) (inv : StoreInv s0) {
     (hff : f ∈ froms) : r ∈ getQuarantineRecords (run s0 ops) to froms :=
   index_complete (store_invariant s0 ops inv) hmem hf hff
 
+/-! ### 7. beyond the anchored files: genesis export followed by import -/
+
+/-- **Export/import keeps every quarantined coin on record — partial.**
+Full statement (FALSE of the code, see `regenesis_can_lose_funds`): after `ExportGenesis` followed
+by `InitGenesis` the total on record is what it was.  Proved here under the hypothesis that is
+missing in the code: no two exported entries share receiver and unaccepted-sender set (true
+whenever no multi-sender record is partially accepted). -/
+theorem regenesis_preserves_partial {s s' : State} (inv : StoreInv s) (order : List GenFunds → List GenFunds)
+    (hperm : ∀ l, (order l).Perm l)
+    (hdistinct : ((exportGenesis s).map fun g => (g.to, createRecordSuffix g.unacc)).Nodup)
+    (h : regenesis s order = .ok s') : ∀ d, outstanding s' d = outstanding s d := by
+  intro d
+  unfold regenesis at h
+  simp only at h
+  split at h
+  · injection h with h
+    subst h
+    have hp := hperm (exportGenesis s)
+    have hmem : ∀ g ∈ order (exportGenesis s), ∃ e ∈ s.recs, g = ⟨e.1.1, e.2.unacc, e.2.coins, e.2.declined⟩ := by
+      intro g hg
+      have := hp.mem_iff.mp hg
+      simp only [exportGenesis, List.mem_map] at this
+      obtain ⟨e, he, rfl⟩ := this
+      exact ⟨e, he, rfl⟩
+    rw [initGenesisFunds_total d _ _ ⟨fun _ he => by simp at he, by simp [KeysNodup], fun _ he => by simp at he,
+        fun _ he => by simp at he, fun _ he => by simp at he⟩]
+    · -- the totals agree
+      have h1 : genTotal (order (exportGenesis s)) d = genTotal (exportGenesis s) d := genTotal_perm d hp
+      have h2 : genTotal (exportGenesis s) d = outstanding s d := by
+        unfold outstanding exportGenesis
+        induction s.recs with
+        | nil => rfl
+        | cons e t ih => obtain ⟨k, r⟩ := e; simp [genTotal, sumRecs, ih]
+      rw [h1, h2]
+      simp [outstanding, sumRecs]
+    · exact (hp.map _).nodup_iff.mpr hdistinct
+    · intro g _; rfl
+    · intro g hg
+      obtain ⟨e, he, rfl⟩ := hmem g hg
+      intro hu
+      have := inv.nfa e he
+      simp only [Record.isFullyAccepted] at this
+      have hu' : e.2.unacc = [] := hu
+      rw [hu'] at this
+      cases this
+    · intro g hg
+      obtain ⟨e, he, rfl⟩ := hmem g hg
+      exact inv.nonneg e he
+  · cases h
+
 /-! ### non-vacuity: a concrete history meets every hypothesis used above -/
 
 namespace Demo
@@ -518,6 +521,27 @@ example : (("C", ["A"]), (⟨["A"], [], [("aaa", 5)], false⟩ : Record)) ∈ (r
 -- hypotheses of `index_complete`: a multi-sender record, looked up by its second sender only
 example : (("C", ["A", "B"]), (⟨["A", "B"], [], [("aaa", 3)], false⟩ : Record)) ∈ s4.recs := by decide
 example : (getQuarantineRecords s4 "C" ["B"]).length = 2 := by decide
+
+/-- **Export/import can lose quarantined funds (witness).** In the reachable state `run s0 ops`
+(a partially accepted record `C<A+B` with unaccepted `[B]` next to the record `C<B`), exporting
+and importing genesis leaves 2aaa or 3aaa on record out of 5aaa (depending on which of the two
+entries is imported last), while the holder still has all 5aaa: the rest can never be accepted. -/
+theorem _root_.PvProofs.C07.regenesis_can_lose_funds :
+    outstanding (run s0 ops) "aaa" = 5 ∧
+    (∀ s', regenesis (run s0 ops) id = .ok s' → outstanding s' "aaa" = 2 ∧ Ledger.bal s'.bank "H" "aaa" = 5) ∧
+    (∀ s', regenesis (run s0 ops) List.reverse = .ok s' → outstanding s' "aaa" = 3 ∧ Ledger.bal s'.bank "H" "aaa" = 5) ∧
+    (regenesis (run s0 ops) id).toBool = true := by
+  refine ⟨by decide, ?_, ?_, by decide⟩
+  · intro s' h
+    rw [regenesis_ok_eq h]
+    decide
+  · intro s' h
+    rw [regenesis_ok_eq h]
+    decide
+
+-- hypotheses of `regenesis_preserves_partial`: before C accepts A nothing is partially accepted
+example : ((exportGenesis s4).map fun g => (g.to, createRecordSuffix g.unacc)).Nodup := by decide
+example : (regenesis s4 id).toBool = true := by decide
 
 end Demo
 
